@@ -597,9 +597,8 @@ theorem c08_facts :
     Facts.charRegexp = "\\\\[abfnrtv']|\\\\x[0-9a-fA-F]{2,2}|\\\\u[0-9a-fA-F]{4,4}|\\\\U[0-9a-fA-F]{8,8}|[^']" ∧
     Facts.durationRegexp = "[-+]?(?:[0-9]+(?:\\.[0-9]+)?(?:ns|us|µs|μs|ms|s|m|h))+" ∧
     Facts.backquoteRegexp = "[^`]+" ∧
-    Facts.integerBody = "{notFoundErr:=parsley.NotFoundError(\"integervalue\")returnparser.Func(func(ctx*parsley.Context,leftRecCtxdata.IntMap,posparsley.Pos)(parsley.Node,data.IntSet,parsley.Error){tr:=ctx.Reader().(*text.Reader)ifreaderPos,result:=tr.ReadRegexp(pos,\"[-+]?(?:[1-9][0-9]*|0[xX][0-9a-fA-F]+|0[0-7]*)\");result!=nil{if_,isFloat:=tr.ReadRune(readerPos,'.');isFloat{returnnil,data.EmptyIntSet,parsley.NewError(pos,notFoundErr)}intValue,err:=strconv.ParseInt(string(result),0,64)iferr!=nil{returnnil,data.EmptyIntSet,parsley.NewErrorf(pos,\"invalidintegervalue\")}returnNewIntegerNode(schema,intValue,pos,readerPos),data.EmptyIntSet,nil}returnnil,data.EmptyIntSet,parsley.NewError(pos,notFoundErr)})}" ∧
-    Facts.unquoteStringBody = "{i:=0for{ifi>=len(b){returnb,len(b)}ifb[i]=='\\r'||b[i]=='\\n'||b[i]=='\"'{ifi==0{returnnil,0}returnb[0:i],i}ifb[i]=='\\\\'||b[i]>=utf8.RuneSelf{break}i++}str:=string(b[i:])vartailstringvarres=make([]byte,0,i)res=append(res,b[0:i]...)varerrerrorvarchrunefor{ifstr==\"\"{break}ifstr[0]=='\\r'||str[0]=='\\n'{break}ch,_,tail,err=strconv.UnquoteChar(str,'\"')iferr!=nil{break}ifch==utf8.RuneError&&len(str)-len(tail)==1{break}res=append(res,string(ch)...)str=tail}iflen(str)==len(b){returnnil,0}returnres,len(b)-len(str)}" :=
-  ⟨rfl, rfl, rfl, rfl, rfl, rfl, rfl⟩
+    Facts.integerBody = "{notFoundErr:=parsley.NotFoundError(\"integervalue\")returnparser.Func(func(ctx*parsley.Context,leftRecCtxdata.IntMap,posparsley.Pos)(parsley.Node,data.IntSet,parsley.Error){tr:=ctx.Reader().(*text.Reader)ifreaderPos,result:=tr.ReadRegexp(pos,\"[-+]?(?:[1-9][0-9]*|0[xX][0-9a-fA-F]+|0[0-7]*)\");result!=nil{if_,isFloat:=tr.ReadRune(readerPos,'.');isFloat{returnnil,data.EmptyIntSet,parsley.NewError(pos,notFoundErr)}intValue,err:=strconv.ParseInt(string(result),0,64)iferr!=nil{returnnil,data.EmptyIntSet,parsley.NewErrorf(pos,\"invalidintegervalue\")}returnNewIntegerNode(schema,intValue,pos,readerPos),data.EmptyIntSet,nil}returnnil,data.EmptyIntSet,parsley.NewError(pos,notFoundErr)})}" :=
+  ⟨rfl, rfl, rfl, rfl, rfl, rfl⟩
 
 /-! ## non-vacuity: concrete files (base offset 7), evaluated by the kernel -/
 
